@@ -8,6 +8,8 @@ package w
 import (
 	"fmt"
 	"net"
+	"strconv"
+	"strings"
 	"time"
 
 	"github.com/hashicorp/serf/serf"
@@ -71,7 +73,13 @@ func execC14(r *Run) {
 		r.Fail("setup", "setup", "%v", err)
 		return
 	}
-	var E, Q uint64 // newest event/query times the latest restart found in the snapshot
+	// E, Q: newest event/query times recorded in the snapshot before the latest restart. They are
+	// the maximum of (a) what the real recovery reads from the image, (b) the largest clock line
+	// present in the image (the file is a log: a later, lower line does not un-record a higher
+	// one), (c) after a clean shutdown, the newest time the application had been handed (every
+	// event reaches the application through the snapshotter, which flushes on shutdown)
+	var E, Q uint64
+	var dE, dQ uint64 // newest times delivered to the application so far
 	restarted := false
 	check := func(after string) {
 		for _, e := range c.Drain(0) {
@@ -80,12 +88,29 @@ func execC14(r *Run) {
 				if restarted && E > 0 && uint64(ev.LTime) <= E {
 					r.Fail("old-event-redelivered", "C14 event", "after a restart whose snapshot recorded event time %d, user event %q with Lamport time %d was delivered (%s)", E, ev.Name, ev.LTime, after)
 				}
+				if uint64(ev.LTime) > dE {
+					dE = uint64(ev.LTime)
+				}
 			case *serf.Query:
 				if restarted && Q > 0 && uint64(ev.LTime) <= Q {
 					r.Fail("old-query-redelivered", "C14 query", "after a restart whose snapshot recorded query time %d, query %q with Lamport time %d was delivered (%s)", Q, ev.Name, ev.LTime, after)
 				}
+				if uint64(ev.LTime) > dQ {
+					dQ = uint64(ev.LTime)
+				}
 			}
 		}
+	}
+	imageMax := func(img map[string][]byte, prefix string) uint64 {
+		var m uint64
+		for _, line := range strings.Split(string(img[snapPath]), "\n") {
+			if strings.HasPrefix(line, prefix) {
+				if v, err := strconv.ParseUint(strings.TrimPrefix(line, prefix), 10, 64); err == nil && v > m {
+					m = v
+				}
+			}
+		}
+		return m
 	}
 	for idx, s := range r.C.Steps {
 		r.curStep = idx
@@ -144,7 +169,25 @@ func execC14(r *Run) {
 				r.Fail("recovery-error", "C14 recovery-error", "%v", err)
 				return
 			}
-			E, Q = st.eclock, st.qclock
+			for _, v := range []uint64{st.eclock, imageMax(img, "event-clock: ")} {
+				if v > E {
+					E = v
+				}
+			}
+			for _, v := range []uint64{st.qclock, imageMax(img, "query-clock: ")} {
+				if v > Q {
+					Q = v
+				}
+			}
+			if !s.F {
+				if dE > E {
+					E = dE
+				}
+				if dQ > Q {
+					Q = dQ
+				}
+			}
+			dE, dQ = 0, 0 // (c) only speaks about what this generation was handed and flushed
 			fs = simfs.FromImage(img)
 			simfs.Install(fs)
 			if err := c.Start(0, opts0); err != nil {
